@@ -406,6 +406,7 @@ def c11(tier):
     # the anchor `if (nH2 == 0) break`: convergence is declared only at an exact solve with nothing pending
     sg.sg5(P, C)
     sg.sg7(P, C)
+    sg.sg8(P, C)
     sp.so1(P, C)
     # the constrained set handed back to the solver is one job's list of clipped coordinates, not several jobs' concatenated
     mt.mt9(P, C)
